@@ -60,7 +60,8 @@ def make_case(v, variant, k):
     cmd = "cd" if variant == "cd" else "vpa"
     return {"name": name, "ctx": ctx, "variant": variant, "prefix": prefix, "line": "%s %s%s" % (cmd, opener, typed),
             "entries": entries, "for_dir": variant == "cd", "pinned_ok": v["pinned_ok"],
-            "feat": {"ctx": ctx, "variant": variant, "specials": sorted(set(name) & META), "first": name[:1],
+            "feat": {"ctx": ctx, "variant": variant, "specials": sorted(set(name) & META), "first": name[:1], "name": name,
+                     "is_dir": is_dir,
                      "model_pinned_ok": v["pinned_ok"], "len": len(name)}}
 
 
@@ -123,8 +124,6 @@ def run_pty(c):
         return {"unsettled": str(e)}
     try:
         line = c["line"]
-        if c["variant"] == "cd":
-            line = "vpa" + line[2:]       # the helper shows what the word is read as; the candidate set after cd is judged in-process
         ok, t1 = s.send(line + "\t", timeout=10)
         if not ok:
             return {"unsettled": "after TAB"}
@@ -140,6 +139,13 @@ def run_pty(c):
             # an open quote leaves the editor in multi-line mode: that is a failed round trip, not a tool problem
             s.send("\x03", timeout=5)
             return {"argv": None, "screen": (t1 + t2).decode("utf-8", "replace")[-300:], "stuck": True}
+        if c["variant"] == "cd":
+            # the line was `cd <completed name>`: where did the shell go?
+            ok, t3 = s.send("vpa\r", timeout=10)
+            recs = [r for r in s.log() if r.get("h") == "pa"]
+            cwd = recs[0].get("cwd", "") if len(recs) == 1 else None
+            rel = os.path.relpath(cwd, s.cwd) if cwd else None
+            return {"argv": [rel + "/"] if rel is not None else None, "screen": (t1 + t2).decode("utf-8", "replace")[-300:]}
         recs = [r for r in s.log() if r.get("h") == "pa"]
         return {"argv": recs[0].get("argv") if len(recs) == 1 else None, "nrec": len(recs),
                 "screen": (t1 + t2).decode("utf-8", "replace")[-300:]}
